@@ -36,3 +36,12 @@ def run(F, S, R, tier):
         else:
             R.bad("sibling/pow-engines", "the two PoW engines no longer make the same decisions: %s vs %s" % ([T.show(x) for x in da if x not in db][:2], [T.show(x) for x in db if x not in da][:2]), [a.where(), b.where()])
     R.guard("sibling/pow-engines", sibling)
+
+    # F19 (fixed): the number of halvings is epoch_number / interval, unbounded; a plain `>>` by it overflows from the 64th halving on
+    # (panic with overflow checks, the initial reward again without). The shift must be a checked one.
+    def halving():
+        b = F.one("ckb_chain_spec", r"consensus::Consensus::primary_epoch_reward$")
+        K.no_panicking_arith(R, "affine/halving-shift-total", [b], ("Shr", "Shl"), "primary epoch reward after any number of halvings (F19)")
+        if not [c for c in [x for bb in [b] + list(b.nested()) for x in bb.calls] if c.callee.endswith("checked_shr") or c.callee.endswith("checked_div") or c.callee.endswith("checked_pow")]:
+            R.bad("affine/halving-shift-total/halves", "primary_epoch_reward no longer halves through a checked shift", [b.where()])
+    R.guard("affine/halving-shift-total", halving)
